@@ -653,3 +653,38 @@ def check_null_literal_args(chk, prog, unit, rule="P5"):
         chk.ob(rule, unit.name, "null-literal-to-asserted-param", True, loc="src/" + unit.name,
                proof="no call passes a NULL constant to an ASSERT-guarded parameter")
     return n
+
+
+FORMAT_FUNCS = {"libast_print_error": 0, "libast_print_warning": 0, "libast_fatal_error": 0, "libast_dprintf": 0, "printf": 0,
+                "fprintf": 1, "sprintf": 1, "snprintf": 2, "__builtin___snprintf_chk": 4, "__builtin___sprintf_chk": 3}
+
+
+def check_format_args(chk, units, rule="F1"):
+    """Every printf-style call with a literal format passes exactly as many data arguments as the format has conversions:
+    a conversion without an argument makes the callee read an unwritten register / stack slot (a literal "%get()" in a
+    message is the conversion %g)."""
+    n = 0
+    for u in units:
+        for f in u.functions.values():
+            for c in X.calls_in(f.body):
+                cn = X.callee_name(c)
+                if cn not in FORMAT_FUNCS:
+                    continue
+                args = c["ch"][1:]
+                fi = FORMAT_FUNCS[cn]
+                if fi >= len(args):
+                    continue
+                fmt = X.strip(args[fi])
+                if fmt is None or fmt.get("k") != "str":
+                    continue
+                text = (fmt.get("sv") or "").split("\0")[0]
+                convs = re.findall(r"%(?!%)[-+ #0]*(\*|\d+)?(?:\.(\*|\d+))?(?:hh|h|ll|l|L|z|j|t|q)?[diouxXeEfFgGaAcspn]", text.replace("%%", ""))
+                need = len(convs) + sum(1 for w, p_ in convs if w == "*") + sum(1 for w, p_ in convs if p_ == "*")
+                have = len(args) - fi - 1
+                n += 1
+                chk.ob(rule, f.name, "format-args:" + canon(f, c)[:40], have >= need, loc=f.loc(c),
+                       detail="%s: the format %r has %d conversion(s) but the call passes %d argument(s): the missing ones are read from "
+                              "unwritten registers / stack (an unescaped %% in a message text, e.g. %%get(), is a conversion)" % (
+                                  f.name, text[:60], need, have),
+                       proof="%d conversion(s), %d argument(s)" % (need, have))
+    return n
